@@ -26,7 +26,7 @@ void stmt(Ctx& c, LZ lazy, EG eager) {
             if (EXACT) c.eqn(DL->data()[i], DE->data()[i], "D(lazy) vs D(eager)", (long)i, "lazy-differs-from-eager");
             else { if (!(DE->data()[i] == DE->data()[i])) { ++c.notes["eager-result-not-finite"]; continue; } c.near(DL->data()[i], (long double)DE->data()[i], 512.0L * N * unit_roundoff<T>() * mx, "D(lazy) vs D(eager)", (long)i, "lazy-differs-from-eager"); }
         }
-        c.digest_add(DE->data(), 0);
+        if (EXACT) for (size_t i = 0; i < N * N; ++i) { T v = DL->data()[i] + T(0); c.digest_add(&v, 1); }
         DL.verify(c, "D(lazy)"); DE.verify(c, "D(eager)");
         if (rep == 0) c.nontrivial = distinct_count(DE->data(), N * N) >= 2 || N == 1;
     }
